@@ -353,6 +353,7 @@ func main() {
 		fmt.Fprintln(os.Stderr, err)
 		os.Exit(1)
 	}
+	extractMicro(repo, outDir)
 	fmt.Printf("registry: %d handler entries, %d invoke entries, %d predicates\n", len(handler), len(invoke), len(names))
 }
 
